@@ -19,6 +19,7 @@ def run():
     dump.unlink()
     E.trace_validation(res, work, n_random=4000 if thorough else 800)
     E.unit_test_suite_traces(res, work, "rc")
+    E.replay_simulated("C07", res, work, 4000 if thorough else 400)
     res.coverage["exhaustive"] = True
     res.coverage["rule"] = (f"every program <= {n} leaves x every RC assignment; the real format_constraints_expression is parsed by the real "
                             "parser, compared with the spec's AST, and evaluated by the real format_constraint_evaluation under every truth "
